@@ -69,9 +69,10 @@ func c20Watch(o *c20Obs, d *DataChannel, states *[]string, opens, closes *int) {
 			*states = append(*states, s.String())
 		}
 	})
-	d.OnOpen(func() { *opens++ })
-	d.OnClose(func() { *closes++ })
-	d.OnMessage(func(DataChannelMessage) { o.msgs++ })
+	// user handlers take time: each contains a scheduling point, so other threads may run meanwhile
+	d.OnOpen(func() { vsched.Yield("user-handler"); *opens++ })
+	d.OnClose(func() { vsched.Yield("user-handler"); *closes++ })
+	d.OnMessage(func(DataChannelMessage) { vsched.Yield("user-handler"); o.msgs++ })
 }
 
 // c20Scenarios: name -> threads spawned after setup.
@@ -106,6 +107,7 @@ func c20Body(t *testing.T, name string) (func(), *c20Obs) {
 			c20Watch(o, d, &o.states, &o.opens, &o.closes)
 		}
 		x.OnDataChannel(func(rd *DataChannel) {
+			vsched.Yield("user-handler")
 			o.remote = rd
 			c20Watch(o, rd, &o.rstates, &o.ropens, &o.rcloses)
 		})
